@@ -232,7 +232,7 @@ def one(cases, lines, metas, rng, tier, ci):
 def run(res, rng, tier, known):
     from common import run_cases
     cases, lines, metas = [], [], []
-    n = 70 if tier == "quick" else 600
+    n = 120 if tier == "quick" else 800
     for ci in range(n):
         one(cases, lines, metas, rng, tier, ci)
     # run implementation + oracle
